@@ -131,9 +131,9 @@ def shrink(exe, case, fails):
                             c = copy.deepcopy(cur)
                             c[key][lst][idx][fld] = val
                             changed |= attempt(c)
-        if cur.get("cfg", {}).get("verbose") and len(cur["cfg"]) > 1:
+        for key in list(cur.get("cfg", {})):
             c = copy.deepcopy(cur)
-            c["cfg"] = {"verbose": True}
+            del c["cfg"][key]
             changed |= attempt(c)
         for fld, val in (("cfg", {}), ("style", 0), ("upstream", 200), ("accept", None)):
             if cur.get(fld) != val:
@@ -198,6 +198,8 @@ def run(R):
     positives = {ep: 0 for ep in EPS}
     verbosity = {"verbose": 0, "verbose_and_negotiation_fails": 0, "verbose_negotiation_fails_and_error_answer": 0}
     accepts = {}
+    levels = {}
+    trace_and_broken_condition = 0
     for c, i, m in zip(cases, impl, model):
         if gen_pipeline.nontrivial(c):
             nontriv.add(vlib.case_hash(c))
@@ -209,6 +211,12 @@ def run(R):
                 positives[ep] += 1
         if st.get("decision") == "rejected":
             rejected += 1
+        lvl = c.get("cfg", {}).get("log", "disabled")
+        levels[lvl] = levels.get(lvl, 0) + 1
+        if lvl == "trace" and any((h.get("cond") or {}).get("bad") or (h.get("cond") or {}).get("err")
+                                  for key in ("rule", "default") if c.get(key)
+                                  for h in c[key].get("hand", []) + c[key].get("fin", []) if not h.get("coe")):
+            trace_and_broken_condition += 1
         acc = c.get("accept")
         accepts[str(acc)] = accepts.get(str(acc), 0) + 1
         if c.get("cfg", {}).get("verbose"):
@@ -222,7 +230,8 @@ def run(R):
         steps_hist[str(k)] = steps_hist.get(str(k), 0) + 1
     R.coverage.update({
         "evaluations": len(cases), "distinct_nontrivial": len(nontriv),
-        "rule": "a case = status overrides and respond.verbose of the services, the request's Accept header (absent, "
+        "rule": "a case = status overrides, respond.verbose and log.level (trace/debug/info/warn/disabled; logger "
+                "of the request context) of the services, the request's Accept header (absent, "
                 "acceptable, unsupported, malformed), a rule and/or default rule (0-3 authenticators, 0-4 "
                 "authorizers/contextualizers, 0-3 finalizers, 0-3 error handlers; per step an outcome ok/error "
                 "kinds/panic, an `if` condition true/false/on subject/on error type/not evaluable, fallback and "
@@ -235,6 +244,8 @@ def run(R):
         "exhaustive": False,
         "model_branches_per_entry_point": dict(sorted(branches.items())),
         "positive_answers_observed": positives,
+        "log_level_distribution": dict(sorted(levels.items())),
+        "trace_level_with_non_evaluable_condition_on_mandatory_step": trace_and_broken_condition,
         "verbosity_distribution": verbosity, "accept_header_distribution": dict(sorted(accepts.items())),
         "cases_rejected_at_load": rejected,
         "pipeline_length_histogram": dict(sorted(steps_hist.items(), key=lambda kv: int(kv[0]))),
